@@ -194,6 +194,15 @@ qb_ipcs_request_rate_limit(struct qb_ipcs_service *s,
 	qb_list_for_each_safe(pos, n, &s->connections) {
 
 		c = qb_list_entry(pos, struct qb_ipcs_connection, list);
+		if (c->state != QB_IPCS_CONNECTION_ACTIVE &&
+		    c->state != QB_IPCS_CONNECTION_ESTABLISHED) {
+			/*
+			 * Still listed because somebody holds a reference, but
+			 * its channels and descriptors are gone: there is no
+			 * peer to throttle and no descriptor to re-register.
+			 */
+			continue;
+		}
 		qb_ipcs_connection_ref(c);
 
 		if (rl == QB_IPCS_RATE_OFF) {
